@@ -35,11 +35,24 @@ func newC04(tier string) run.Job {
 		j.queries = append(j.queries, cb.Q)
 	}
 	j.nq = (len(j.queries) + c04Chunk - 1) / c04Chunk
-	modes := []int{modeFloat}
-	if tier == "thorough" {
-		modes = []int{modeFloat, modeNumber}
+	// both decodings: a json.Number may be rewritten in place as well
+	modes := []int{modeFloat, modeNumber}
+	spec4 := stdDocSpec(tier)
+	if tier != "thorough" {
+		spec4.Scalars = gen.S3
 	}
-	j.ds = newDocSet(stdDocSpec(tier), modes)
+	j.ds = &docSet{modes: modes}
+	for _, d := range append(gen.Docs(spec4), gen.WideDocs()...) {
+		j.ds.text = append(j.ds.text, gen.JSON(d))
+		for _, m := range modes {
+			cp := gen.Clone(d)
+			if m == modeNumber {
+				cp = gen.ToNumber(d)
+			}
+			j.ds.docs[m] = append(j.ds.docs[m], cp)
+			j.ds.pristine[m] = append(j.ds.pristine[m], gen.Clone(cp))
+		}
+	}
 	// containers of 2..3 members that all hit / partly hit / miss the operand paths (the node
 	// bound above is too small for "every member has a")
 	for _, seq := range [][]int{{3, 3}, {3, 4}, {3, 7}, {7, 7}, {3, 2}, {2, 2}, {3, 3, 3}, {3, 7, 4}, {7, 3, 2}, {6, 6}, {3, 0}, {9, 11}} {
@@ -56,6 +69,17 @@ func newC04(tier string) run.Job {
 					j.ds.pristine[m] = append(j.ds.pristine[m], gen.Clone(cp))
 				}
 			}
+		}
+	}
+	for _, d := range gen.MemberDocs() {
+		j.ds.text = append(j.ds.text, gen.JSON(d))
+		for _, m := range modes {
+			cp := gen.Clone(d)
+			if m == modeNumber {
+				cp = gen.ToNumber(d)
+			}
+			j.ds.docs[m] = append(j.ds.docs[m], cp)
+			j.ds.pristine[m] = append(j.ds.pristine[m], gen.Clone(cp))
 		}
 	}
 	// plus the ordinary ladders (any step kind may write)
@@ -109,6 +133,16 @@ func (j *c04Job) RunUnit(i int, c *run.Ctx) {
 					if res.ErrType == "" {
 						c.Nontrivial++
 					}
+					// a write may also land in the document used by the PREVIOUS call (a buffer that
+					// aliases caller memory and is recycled): check that one too
+					if di > 0 && j.ds.restore(m, di-1) {
+						c.Violate(run.Violation{
+							Sig:    "earlier-source-modified:" + gen.Shape(p),
+							Detail: fmt.Sprintf("%s: after evaluating %s and then %s, the FIRST document is no longer what it was", text, j.ds.text[di-1], j.ds.text[di]),
+							Size:   len(text)*100 + len(j.ds.text[di]) + len(j.ds.text[di-1]),
+							Case:   map[string]interface{}{"path": text, "doc": j.ds.text[di-1], "doc2": j.ds.text[di], "mode": modeName[m], "config": map[int]string{0: "plain", 1: "accessor"}[k], "two_calls": true},
+						})
+					}
 					if !j.ds.restore(m, di) {
 						continue
 					}
@@ -151,7 +185,7 @@ func init() {
 			"the clause about sharing one document between goroutines is explored by C06",
 		},
 		Bounds: map[string]string{
-			"quick":    "every atom (219), every A&&B / A||B over 24 atoms (1152) and 5 depth-3 shapes over 5 atoms (625) as a filter in 8 positions ($[?], $.a[?], $.*[?], $..[?], $[?].a, $[?][?(@.a)], $[0][?], $.c[?]); plus all paths of <=2 steps over the 50-step alphabet (functions after <=1 step); every document of <=4 nodes plus 48 containers of 2..3 members that all / partly / never have the operand members; plain and accessor mode",
+			"quick":    "every atom (219), every A&&B / A||B over 24 atoms (1152) and 5 depth-3 shapes over 5 atoms (625) as a filter in 8 positions ($[?], $.a[?], $.*[?], $..[?], $[?].a, $[?][?(@.a)], $[0][?], $.c[?]); plus all paths of <=2 steps over the 50-step alphabet (functions after <=1 step); every document of <=4 nodes (scalars {1,\"a\",null}), the wide and member documents, plus 48 containers of 2..3 members that all / partly / never have the operand members; both decodings; plain and accessor mode; after every call the document of the previous call is checked too",
 			"thorough": "depth-3 shapes over 8 atoms (2560); every document of <=5 nodes in both decodings",
 		},
 		New: newC04,
@@ -160,6 +194,21 @@ func init() {
 				cfg := &env.Cfg
 				if cs["config"] == "accessor" {
 					cfg = &env.CfgAcc
+				}
+				if cs["two_calls"] == true {
+					pr := impl.Parse(path, cfg)
+					if pr.F == nil {
+						return false, "does not parse"
+					}
+					mode := modeFloat
+					if cs["mode"] == modeName[modeNumber] {
+						mode = modeNumber
+					}
+					d2text, _ := cs["doc2"].(string)
+					before := gen.Clone(doc)
+					impl.Call(pr.F, doc)
+					impl.Call(pr.F, decodeDoc(d2text, mode))
+					return !sameJSON(doc, before), "first document after both calls: " + showVal(doc)
 				}
 				pr := impl.Parse(path, cfg)
 				if pr.F == nil {
